@@ -183,3 +183,14 @@ Print Assumptions C11_dust_split_refuted.
 Print Assumptions C11_split_succeeds.
 Print Assumptions C11_source_tables.
 Print Assumptions C11_nonvacuous.
+
+(** SOURCE TIE (fee split).  ods_parser._create_and_process_transaction is re-read from the source on every run as data
+    (Generated.v fragment `split`: the guard, the keyword-argument maps of the two constructor calls, the containers);
+    Model/SplitGen.v interprets the data, and the interpretation is [data_row], the row step that [parse_sheet] and every
+    theorem above is about.  Any edit of that function that changes the guard, a keyword argument or a container stops
+    compiling here (Proofs/SplitGenProofs.v). *)
+From RP2V Require Import Model.SplitGen Proofs.SplitGenProofs.
+Theorem C11_source_tie_fee_split :
+  forall cfg asset s t rowno row, data_row_gen cfg asset s t rowno row = data_row cfg asset s t rowno row.
+Proof. exact data_row_gen_agrees. Qed.
+Print Assumptions C11_source_tie_fee_split.
